@@ -1,7 +1,9 @@
 import ZV.Drv.C18
 import ZV.Model.C20
 /-! line protocol for C20:  `c20 u <schema> <p=tagstring> <hex>`  →  `<strict result>|<permissive result>`
-    (each result as in `c18 u`: `ok <value> <len(rest)>` | `err`). -/
+    (each result as in `c18 u`: `ok <value> <len(rest)>` | `err`);
+    `c20 tpc <u|g> <hex>` and `c20 tu time <p=tagstring> <hex>` → the same pair for the time content parsers /
+    for `UnmarshalWithParams` into a `time.Time` (results as in `c18 tpc` / `c18 tu`). -/
 namespace ZV.C20
 open ZV.C18
 
@@ -11,6 +13,24 @@ def handle (args : List String) : String :=
     (match parseSchema sc, parseP p, ofHex h with
      | some s, some p, some bs => showUnm (unmarshal false s p bs) ++ "|" ++ showUnm (unmarshal true s p bs)
      | _, _, _ => "bad-op")
+  | ["tpc", k, h] =>
+    (match ofHex h with
+     | some bs =>
+       if k == "u" then showTimeRes (ZV.Time.EA.parseUTCTime false bs) ++ "|" ++ showTimeRes (ZV.Time.EA.parseUTCTime true bs)
+       else if k == "g" then
+         showTimeRes (ZV.Time.EA.parseGeneralizedTime false bs) ++ "|" ++ showTimeRes (ZV.Time.EA.parseGeneralizedTime true bs)
+       else "bad-op"
+     | none => "bad-op")
+  | ["tu", "time", p, h] =>
+    (match parseP p, ofHex h with
+     | some p, some bs =>
+       let sh (r : Res (ZV.Time.GoTime × Bytes)) : String :=
+         match r with
+         | .ok (t, rest) => "ok " ++ showTimeTok t ++ " " ++ toString rest.length
+         | .err => "err"
+         | .panic => "panic"
+       sh (TimeField.parseTimeField false p bs) ++ "|" ++ sh (TimeField.parseTimeField true p bs)
+     | _, _ => "bad-op")
   | _ => "bad-op"
 
 end ZV.C20
